@@ -79,3 +79,9 @@ Theorem C09_generated_enable_is_model : forall E fuel hs s b s',
   Inv s -> step_op E fuel hs s (OEnable b) = (s', Done) -> GenSchedEq.gen_set_enabled E fuel b s = Some (s', GenRt.Ret).
 Proof. exact GenSchedEq.gen_enable_is_model. Qed.
 Print Assumptions C09_generated_enable_is_model.
+
+(* JobBase.__lt__ as generated from jobs/base.py (tools/gen_jobs.py) is the order the model's queue is sorted by *)
+From EAS Require GenJobsEq.
+Theorem C09_generated_lt_is_job_lt : forall s a b, EASGen.GenJobs.g_JobBase_lt a b s = job_lt s a b.
+Proof. exact GenJobsEq.gen_lt_is_job_lt. Qed.
+Print Assumptions C09_generated_lt_is_job_lt.
